@@ -130,7 +130,7 @@ PROPS['C04'] = {
     'rule': POLICY_RULE, 'trusted': UNIT_TRUST + CONC_TRUST + SEQ_TRUST[1:],
 }
 PROPS['C05'] = {
-    'modules': ['OtterVerif.Props.C04'],
+    'modules': ['OtterVerif.Props.C04', 'OtterVerif.Props.C05'],
     'engines': POLICY_ENGINES + [seq(['bound', 'deferredk1', 'deferred'], 240, 9000, lambda f: f['class'] in ('C05',))],
     'rule': POLICY_RULE, 'trusted': UNIT_TRUST + CONC_TRUST + SEQ_TRUST[1:],
 }
